@@ -101,7 +101,7 @@ func c02Cases(thorough bool) []c02Case {
 			}
 		}
 	}
-	if thorough {
+	{
 		// three fields, and the five-field boundary the property names
 		sorts = append(sorts,
 			[]rm.SortField{{Sym: "b"}, {Sym: "s", Desc: true}, {Sym: "i"}},
@@ -239,6 +239,12 @@ func c02RunFamily(rep *report.Report, key string, ids []string, cases []c02Case,
 		doms[f] = d
 	}
 	n := len(ids) * len(fields)
+	profiles := len(fields) >= 3
+	if profiles {
+		// with three or more sort fields each entity takes one of three whole-row profiles (all null, all
+		// first value, alternating), so rows that tie on EVERY sort field occur
+		n = len(ids)
+	}
 	idx := make([]int, n)
 	dsNo := 0
 	for {
@@ -249,7 +255,18 @@ func c02RunFamily(rep *report.Report, key string, ids []string, cases []c02Case,
 				e := &rm.Ent{Id: id, F: map[string]rm.Val{}, Sets: map[string][]string{"roles": {"all"}}, Fk: map[string]*string{}, Tags: map[string]rm.Val{}}
 				fmt.Fprintf(&lb, "%s{", id)
 				for fi, f := range fields {
-					e.F[f] = doms[f][idx[ei*len(fields)+fi]]
+					if profiles {
+						switch idx[ei] {
+						case 0:
+							e.F[f] = rm.Null
+						case 1:
+							e.F[f] = c02Domains[f][1]
+						default:
+							e.F[f] = c02Domains[f][1+fi%2]
+						}
+					} else {
+						e.F[f] = doms[f][idx[ei*len(fields)+fi]]
+					}
 					fmt.Fprintf(&lb, "%s=%s ", f, e.F[f])
 				}
 				lb.WriteString("} ")
@@ -271,9 +288,12 @@ func c02RunFamily(rep *report.Report, key string, ids []string, cases []c02Case,
 		dsNo++
 		k := n - 1
 		for k >= 0 {
-			f := fields[k%len(fields)]
+			limit := 3
+			if !profiles {
+				limit = len(doms[fields[k%len(fields)]])
+			}
 			idx[k]++
-			if idx[k] < len(doms[f]) {
+			if idx[k] < limit {
 				break
 			}
 			idx[k] = 0
